@@ -184,10 +184,14 @@ def _set_integer_constraints_from_physical_type(expression, physical_type, type_
     #
     # TODO(bolms): Add a scheme for defining integer bounds on user-defined
     # external types.
-    if type_size is None:
+    if type_size is None or not 1 <= type_size <= 4096:
         # If the type_size is unknown, then we can't actually say anything about the
         # minimum and maximum values of the type.  For UInt, Int, and Bcd, an error
         # will be thrown during the constraints check stage.
+        #
+        # The same goes for sizes that are zero, negative, or absurdly large: the
+        # formulas below are meaningless for the former, and 2**type_size takes
+        # unbounded time and memory (and cannot be printed) for the latter.
         expression.type.integer.minimum_value = "-infinity"
         expression.type.integer.maximum_value = "infinity"
         return
